@@ -302,8 +302,9 @@ static void meaning_case(const Args& a, long i, Agg& agg) {
     if (tag == "cell_mass_density" || tag == "damping_coefficient") { c.v = "skip"; agg.add(c); return; }
 #endif
     if (tag == "cell_bulk_modulus" || tag == "max_inner_pressure") {
-        double s = g.coin(tag == "max_inner_pressure" ? 1.0 : 0.5) ? g.uni(0.85, 0.97) : g.uni(1.03, 1.15); su.scale_after_ctor = s;
-        double KA = fld(C.f, "cell_bulk_modulus").dval, Punc = -KA * 3 * std::log(s);
+        double s = g.coin(tag == "max_inner_pressure" ? 0.6 : 0.5) ? g.uni(0.85, 0.97) : g.uni(1.03, 1.15); su.scale_after_ctor = s;
+        // (an expanded cell has a negative pressure: the maximum pressure, a cap from above, must leave it alone however small it is)
+        double KA = fld(C.f, "cell_bulk_modulus").dval, Punc = std::fabs(-KA * 3 * std::log(s));
         B = A;
         if (tag == "cell_bulk_modulus") setv(B.cells[su.kct].f, "cell_bulk_modulus", g, KA * (g.coin() ? g.uni(1.5, 100) : 1 / g.uni(1.5, 100)));
         else { setv(A.cells[su.kct].f, "max_inner_pressure", g, Punc * g.uni(0.2, 0.8)); B = A; if (g.coin()) set_inf(fld(B.cells[su.kct].f, "max_inner_pressure"), g); else setv(B.cells[su.kct].f, "max_inner_pressure", g, Punc * g.uni(1.5, 5)); }
